@@ -454,6 +454,20 @@ def run(run, tier, seed, replay=None):
     for i in range(nprog):
         name, src = family.program(rnd, "h" if i % 4 == 3 else "c")
         progs.append((i, name, src, k, seed, None))
+    # programs sitting exactly ON a limit (25 body lines in nine shapes incl. chains of nested brace-less structures,
+    # 5 functions, 4 parameters incl. void pointers, 5 variables): conforming, one edit away from the limit diagnostics
+    import c03
+    lim = [c for c in c03.count_cases() if c[4] == c[5]]
+    step = 3 if tier == "quick" else 1
+    for j, (limit, ctx, name, src, n, L, code) in enumerate(lim[(seed % step)::step]):
+        progs.append((len(progs), name, src, 1, seed, {"F03", "F04", "F05", "D04"}))
+    # file names with several dots: the rules that depend on the file type must still apply
+    for j in range(4 if tier == "quick" else 24):
+        kind = "h" if j % 2 else "c"
+        name, src = family.program(rnd, kind)
+        if kind == "h":
+            continue        # the guard symbol of a header follows its name: family.program already varies dotted header names
+        progs.append((len(progs), name[:-2] + ".utils.c", src, 1, seed, {"T01", "T02", "T03", "T04"}))
     with mp.Pool(common.NPROC, initializer=_winit, maxtasksperchild=200) as pool:
         outs = list(pool.imap_unordered(_search_work, progs, chunksize=1))
     outs.sort(key=lambda o: o["pi"])
